@@ -143,7 +143,7 @@ PROPS = {
     "C11": {
         "n_quick": 3000, "n_thorough": 80000,
         "technique": "Coq proof (stack-based execution = lexical flat expansion, by nested induction over programs) + correspondence by probing the real router",
-        "level_text": "proof: C11_flat (exec p = flatten p for every registration program), C11_group_scope_restored, C11_autohead_get, C11_headers_routes_last, C11_checked_flat, C11_group_handlers_wrapped, C11_group_handlers_validated, C11_combo_autohead_at_get (AutoHead, the HandlerWrapper and held ComboRoute values flow from one declaration to the next); tied to the code by running random programs (nesting depth <= 3, group handlers, Combo, Routes with comma lists and extra method strings, Any, AutoHead toggles, handler slices with spare capacity, .Headers on what a statement returns, a HandlerWrapper in a third of the programs and installed or taken off between declarations, ComboRoute values kept in a variable and given methods in other scopes or across AutoHead toggles, now and then a handler that is not a function) on a real Flame and probing every declared (method, path) plus prefix-less paths: handler-id trace and parameters must equal those of the model's registrations fed to the router model",
+        "level_text": "proof: C11_flat (exec p = flatten p for every registration program), C11_group_scope_restored, C11_autohead_get, C11_headers_routes_last, C11_checked_flat, C11_group_handlers_wrapped, C11_group_handlers_validated, C11_combo_autohead_at_get, C11_held_combo_registers_where_called, C11_held_combo_refuses_same_method (AutoHead, the HandlerWrapper and held ComboRoute values flow from one declaration to the next); tied to the code by running random programs (nesting depth <= 3, group handlers, Combo, Routes with comma lists and extra method strings, Any, AutoHead toggles, handler slices with spare capacity, .Headers on what a statement returns, a HandlerWrapper in a third of the programs and installed or taken off between declarations, ComboRoute values kept in a variable and given methods in other scopes or across AutoHead toggles, now and then a handler that is not a function) on a real Flame and probing every declared (method, path) plus prefix-less paths: handler-id trace and parameters must equal those of the model's registrations fed to the router model",
         "level_note": "trusts Coq kernel, extraction, glue; route paths of the programs are static or {placeholder} segments with unique route paths (no duplicate registrations, whose panic would leave the real group stack pushed); Go slice aliasing is outside the immutable model and is exercised on the implementation only",
         "rule": "random programs of 2-6 top-level statements, groups nested up to depth 3 with paths /gK, '', /{gidK}, /gK/x; every route path unique; 4% end with a Combo using GET twice. Probes: each declared route with 3-7 methods, a third also without its group prefix. Non-trivial: nested groups or a Combo; distinct by input.",
         "what": "per probe: not-found or (handler-id trace, params); whole program: ok or panic. Model: exec -> router model -> prediction; spec: same prediction from flatten.",
